@@ -246,7 +246,7 @@ fn count(n: usize, ntypes: usize) -> u64 {
 }
 
 const PRELUDE: &str = r#"
-#![allow(unused, non_snake_case, non_camel_case_types)]
+#![allow(warnings)]
 use mina::prelude::*;
 
 pub struct Absent;
